@@ -92,7 +92,7 @@ def edit_cmds(sc, rng, k, what=("ctrl", "qfrc_applied", "xfrc_applied")):
 
 
 def fail(sc, what, detail):
-    return {"what": what, "detail": detail, "options": dict(sc.mdl.options),
+    return {"what": what, "detail": detail, "options": dict(sc.mdl.options, **getattr(sc.mdl, "optflags", {})),
             "replay": {"model": sc.mdl.text(), "commands": sc.h.log[1:][-60:]}}
 
 
